@@ -632,3 +632,47 @@ theorem schedule_ign (ign : Rng → Bool) (groups : List (List Yield)) :
   exact foldl_accept_ign ign _ _ (by intro y hy; simp [initState] at hy) x hx
 
 end Sched
+
+namespace Sched
+
+theorem finalGe_antisymm (a b : Key × Rw) (h1 : finalGe a b = true) (h2 : finalGe b a = true) : a = b := by
+  rw [finalGe_iff] at h1 h2
+  obtain ⟨⟨g1, t1⟩, ⟨⟨s1, e1⟩, n1⟩⟩ := a
+  obtain ⟨⟨g2, t2⟩, ⟨⟨s2, e2⟩, n2⟩⟩ := b
+  simp only at h1 h2
+  have hs : s1 = s2 := by omega
+  subst hs
+  have he : e1 = e2 := by omega
+  subst he
+  have hn : n1 = n2 := by
+    rcases h1 with h | ⟨_, h | ⟨_, h | ⟨h, _⟩⟩⟩
+    · omega
+    · omega
+    · rcases h2 with h' | ⟨_, h' | ⟨_, h' | ⟨h', _⟩⟩⟩
+      · omega
+      · omega
+      · exact absurd (String.lt_trans h h') (String.lt_irrefl _)
+      · exact h'.symm
+    · exact h
+  subst hn
+  have hg : g1 = g2 := by
+    rcases h1 with h | ⟨_, h | ⟨_, h | ⟨_, h⟩⟩⟩ <;> rcases h2 with h' | ⟨_, h' | ⟨_, h' | ⟨_, h'⟩⟩⟩ <;>
+      first | omega | exact absurd h (String.lt_irrefl _) | exact absurd h' (String.lt_irrefl _)
+  subst hg
+  have ht : t1 = t2 := by
+    rcases h1 with h | ⟨_, h | ⟨_, h | ⟨_, h⟩⟩⟩ <;> rcases h2 with h' | ⟨_, h' | ⟨_, h' | ⟨_, h'⟩⟩⟩ <;>
+      first | omega | exact absurd h (String.lt_irrefl _) | exact absurd h' (String.lt_irrefl _)
+  subst ht
+  rfl
+
+/-- the final order is canonical: it depends only on the *set* of accepted rewrites, not on the order in
+which they were accepted (hence not on the yield order of non-conflicting rewrites) -/
+theorem finalSort_perm (l1 l2 : List (Key × Rw)) (hp : l1.Perm l2) :
+    l1.mergeSort finalGe = l2.mergeSort finalGe := by
+  apply List.Perm.eq_of_pairwise (le := fun a b => finalGe a b = true)
+  · intro a b _ _ h1 h2; exact finalGe_antisymm a b h1 h2
+  · exact List.pairwise_mergeSort finalGe_trans finalGe_total _
+  · exact List.pairwise_mergeSort finalGe_trans finalGe_total _
+  · exact (List.mergeSort_perm _ _).trans (hp.trans (List.mergeSort_perm _ _).symm)
+
+end Sched
